@@ -117,12 +117,41 @@ def run(ctx):
             continue
         cid, kv = parse_kv_line(line)
         kind = kv.get("kind")
-        if kind not in ("L", "R", "H", "M", "N", "K"):
+        if kind == "E":
+            evals += 1
+            kinds["E"] += 1
+            judge_eval += 1
+            dist["E:c-api-error-code:" + kv.get("name", "?")] += 1
+            if kv.get("judge") != "ok":
+                report_judge(cid, kv, "capi-error-code", "C API returned error code %s, expected %s (%s)" % (kv.get("got"), kv.get("want"), kv.get("name")))
+            continue
+        if kind not in ("L", "R", "H", "M", "N", "K", "F"):
             continue
         evals += 1
         kinds[kind] += 1
         spec = specs.get(cid, "")
         corr = kv.get("corr", "?")
+        if kind == "F":
+            judge_eval += 1
+            multi["full_compared"] += 1
+            nl = int(kv.get("nlayers", "0") or 0)
+            dist["F:layers=%s" % ("1" if nl <= 1 else "2-3" if nl <= 3 else "4-8" if nl <= 8 else ">8")] += 1
+            if int(kv.get("ninj", "0") or 0) >= 1 and int(kv.get("nloc", "0") or 0) >= 1:
+                dist["F:with-injection-captures-and-locals"] += 1
+            if corr == "ok" and kv.get("fin") == "1":
+                multi["full_equal"] += 1
+            else:
+                report_corr(cid, kv, "end-to-end model mergeFull (layers + locals + injection_for_match + intersect_ranges + new-table) and the real event stream disagree (corr=%s fin=%s)" % (corr, kv.get("fin")),
+                            "mergeFull=HighlightIter::next")
+            if kv.get("refsup") != "1" or kv.get("defsin") != "1":
+                report_corr(cid, kv, "a real case violates refsUp/defsIn (hypotheses of merge_full_wellformed)", "refsUp/defsIn(full)")
+            if kv.get("wf") != "ok":
+                report_judge(cid, kv, "events-wellformed", "event stream (locals + injections) is not well formed")
+            if kv.get("err", "-") != "-":
+                report_judge(cid, kv, "highlight-error", "Highlighter::highlight returned an error: " + kv["err"])
+            if nl >= 2:
+                distinct.add(hashlib.sha1(spec.encode()).hexdigest())
+            continue
         if kind == "K":
             judge_eval += 1
             multi["locals_compared"] += 1
@@ -202,8 +231,16 @@ def run(ctx):
             dist["R:wf=%s:%s" % (kv.get("wf"), "panic" if j == "panic" else "rendered")] += 1
             if len(spec) > 2100:
                 dist["R:source-longer-than-1KiB"] += 1
-            if j != "panic":
+            dist["R:attribute-callback-mode=%s" % kv.get("attr", "0")] += 1
+            if j not in ("panic", "skip"):
                 judge_eval += 1
+            if kv.get("capirc", "-") != "-":
+                dist["R:through-the-C-API"] += 1
+                multi["capi_compared"] += 1
+                if kv.get("capirc") == "0" and corr in ("orig", "fixed", "both"):
+                    multi["capi_equal"] += 1
+                if kv.get("capirc") != "0":
+                    report_judge(cid, kv, "capi-error-code", "ts_highlighter_highlight returned %s on a valid document" % kv.get("capirc"))
             if j == "FAIL":
                 report_judge(cid, kv, "html-text", "HTML with tags removed and entities decoded is not the normalised text of the stream", kv.get("cause", "-"))
             if kv.get("wf") == "1" and j == "panic":
@@ -274,6 +311,9 @@ def run(ctx):
         "judge_failures_by_clause_and_cause": dict(causes),
         "correspondence": {"compared": evals + kinds["L"], "equal": evals + kinds["L"] - corr_bad},
         "correspondence_merge_multi": {"compared": multi["compared"], "equal": multi["equal"]},
+        "correspondence_c_api": {"compared": multi["capi_compared"], "equal": multi["capi_equal"],
+                                 "how": "html + line offsets from ts_highlight_buffer_* vs the model renderer fed with the Rust API's events"},
+        "correspondence_merge_full": {"compared": multi["full_compared"], "equal": multi["full_equal"]},
         "correspondence_merge_locals": {"compared": multi["locals_compared"], "equal": multi["locals_equal"]},
         "correspondence_intersect_ranges": {"compared": multi["ir_compared"], "equal": multi["ir_equal"], "of_which_against_the_real_private_function": multi["ir_real"],
                                             "how": "Lean intersectRanges vs the ranges the harness fed to the layers whose real event stream was then reproduced exactly"},
